@@ -6,10 +6,15 @@ the hand-written lattice model `Model/Lattices/Toric2DCode.lean` (tied to
 commute, whose logicals commute with the stabilizers and pair up as `δ_ij`; `n = 2·Lx·Ly`,
 `k = 2`; `get_deformation` follows the stated rule at every location.
 
-Not proved here for all sizes: the rank clause (`rank H = n − k`); it is covered per instance
-by the kernel-checked tables of `Properties/C01.lean`.
+Rank clause, for all sizes, at the operator level: the generators at all stabilizer locations except the vertex `(0, 0)` and the face `(1, 1)` are independent
+(`IndepGenerators`: every non-empty sub-family has a Pauli operator on the qubits that
+anticommutes with an odd number of its members, hence with their product), and there are exactly
+`n − k` of them.  What is NOT proved here is the translation of this operator-level statement into
+`finrank (span rows) = n − k` over `ZMod 2` (it needs the bridge `opAntiCount` ↔ symplectic form,
+bilinearity, and the generic upper bound of `Properties/C01.lean`); the matrix-level rank is
+covered per instance by the kernel-checked tables of `Properties/C01.lean`.
 -/
-import PanqecVerif.Proofs.LatToric2DCodeD
+import PanqecVerif.Proofs.LatToric2DCodeRank
 
 namespace Panqec.C01Toric2DCode
 open Panqec.Toric2DCode Panqec.Lat2D
@@ -36,6 +41,22 @@ theorem k_value (Lx Ly : Nat) : (lattice Lx Ly).toCodeData.k = 2 := rfl
     best: two relations) -/
 theorem n_stabilizers (Lx Ly : Nat) : (lattice Lx Ly).stabs.length = 2 * Lx * Ly :=
   length_stabs Lx Ly
+
+/-- rank clause, operator level: the `2·Lx·Ly − 2` generators at all stabilizer locations except
+    the vertex `(0, 0)` and the face `(1, 1)` are independent — every non-empty duplicate-free
+    sub-family `T` has a Pauli operator `d` on the qubits anticommuting with an odd number of
+    members of `T` (so no non-trivial product of them is trivial) — every `Lx, Ly ≥ 2` -/
+theorem generators_independent (Lx Ly : Nat) (hx : 2 ≤ Lx) (hy : 2 ≤ Ly) :
+    IndepGenerators (lattice Lx Ly) (selStabs Lx Ly) :=
+  indep_sel hx hy
+
+/-- the independent family is a sub-family of the stabilizer locations with `n − k` members -/
+theorem generators_count (Lx Ly : Nat) (hx : 1 ≤ Lx) (hy : 1 ≤ Ly) :
+    (∀ s ∈ selStabs Lx Ly, s ∈ (lattice Lx Ly).stabs) ∧
+    (selStabs Lx Ly).length + (lattice Lx Ly).toCodeData.k = (lattice Lx Ly).toCodeData.n := by
+  refine ⟨fun s hs => (mem_selStabs.mp hs).1, ?_⟩
+  rw [n_formula, k_value]
+  exact length_selStabs hx hy
 
 /-- for `Lx, Ly ≥ 2` every stabilizer is the dict of its four distinct wrapped neighbours, in
     delta order, letter `Z` on vertices (even `x`) and `X` on faces -/
@@ -99,5 +120,8 @@ example : (lattice 1 2).getStab [0, 0] = [([1, 0], .Z), ([0, 3], .Z), ([0, 1], .
 example : getDeformation "XZZX" "x" [1, 0] = some PauliMap.swapXZ := by decide
 example : getDeformation "XZZX" "y" [1, 0] = some PauliMap.id := by decide
 example : getDeformation "XZZX" "z" [1, 0] = none := by decide
+example : IndepGenerators (lattice 2 3) (selStabs 2 3) :=
+  generators_independent 2 3 (by decide) (by decide)
+example : (selStabs 2 3).length = 10 := by decide
 
 end Panqec.C01Toric2DCode
